@@ -208,6 +208,8 @@ def load_known():
 
 
 def known_for(prop):
+    if os.environ.get("VERIF_IGNORE_KNOWN") == "1":
+        return []       # self-tests only: show what the list suppresses
     return [f for f in load_known().get("findings", [])
             if f.get("property") == prop]
 
@@ -257,3 +259,27 @@ def short(obj, limit=400):
     text = obj if isinstance(obj, str) else json.dumps(
         obj, sort_keys=True, default=_jsonable)
     return text if len(text) <= limit else text[:limit] + "..."
+
+
+def regression_files(prop):
+    """Committed replay files of defects that were fixed: re-run every time."""
+    import glob
+    return sorted(glob.glob(os.path.join(VERIF, "regressions",
+                                         prop + "-*.json")))
+
+
+def run_regressions(prop, reproduces):
+    """
+    ``reproduces(path) -> bool``.  Returns the list of regression replays
+    whose violation has come back (each is a VIOLATION for the caller).
+    """
+    back = []
+    for path in regression_files(prop):
+        try:
+            if reproduces(path):
+                back.append(path)
+        except Exception as ex:  # pylint: disable=broad-except
+            print("HARNESS-ERROR: regression %s could not run: %r"
+                  % (path, ex))
+            sys.exit(2)
+    return back
